@@ -302,3 +302,96 @@ Proof.
   cbv zeta. split; [vm_compute; reflexivity |]. split; [vm_compute; apply le_n |].
   split; [vm_compute; reflexivity |]. eexists; split; vm_compute; reflexivity.
 Qed.
+
+(* ---------------------------------------------------------------------- *)
+(* 8. The tie to the source TEXT.  Stats/Gen_Stats.v is regenerated on every
+      run by translator/py2gallina_stats.py from the method bodies of
+      Counter and Tally in src/pydsol/core/statistics.py of the tree under
+      test (Python `ast`, fail-closed), and Stats/GenAgree.v proves every
+      generated definition equal to the hand-written model function the
+      theorems above are about -- for all states and arguments and every
+      arithmetic instance.  Two equalities carry a hypothesis: skewness /
+      excess_kurtosis compare float(n) where the model compares the integer n
+      (needs [ofZ_order]: int -> float keeps the order; holds for the
+      rationals), and confidence_interval needs an inv_cdf that never answers
+      NaN ([icdf_no_nan]).  With these equalities every theorem above is a
+      theorem about what the source says now; two of them are restated over
+      the generated functions below.  A change of statistics.py that changes
+      the meaning of a method makes GenAgree.v fail to compile: the check then
+      reports the broken tie.                                                *)
+From PV Require Import Stats.Gen_Stats Stats.GenAgree.
+
+Theorem C09_generated_model_is_the_proved_model : forall N : Num,
+  (forall s o, gen_Tally_register N s o = tregister N s o) /\
+  (forall s, gen_Tally_initialize N s = Ok (tinit N)) /\
+  (forall s, gen_Tally___init__ N s NameStr = Ok (tinit N) /\
+             gen_Tally___init__ N s NameOther = Exn TypeError s) /\
+  (forall s, gen_Tally_n N s = g_n N s /\ gen_Tally_sum N s = g_sum N s /\
+             gen_Tally_min N s = g_min N s /\ gen_Tally_max N s = g_max N s /\
+             gen_Tally_mean N s = g_mean N s) /\
+  (forall s b, gen_Tally_variance N s b = g_variance N b s /\
+               gen_Tally_stdev N s b = g_stdev N b s /\
+               gen_Tally_kurtosis N s b = g_kurtosis N b s) /\
+  (ofZ_order N -> forall s b, gen_Tally_skewness N s b = g_skewness N b s /\
+                              gen_Tally_excess_kurtosis N s b = g_excess_kurtosis N b s) /\
+  (forall icdf, icdf_no_nan N icdf -> forall s al,
+     gen_Tally_confidence_interval N icdf s al = g_confidence_interval N icdf s al) /\
+  (forall s o, gen_Counter_register s o = cregister s o) /\
+  (forall s, gen_Counter_initialize s = Ok cinit) /\
+  (forall s, gen_Counter_count s = ccount s /\ gen_Counter_n s = cn s) /\
+  (forall ops s, gen_trun N s ops = trun N s ops) /\
+  (forall ops s, gen_crun s ops = crun s ops).
+Proof. exact tally_counter_generated_agree. Qed.
+Print Assumptions C09_generated_model_is_the_proved_model.
+
+Theorem C09_int_to_float_order_holds_in_exact_arithmetic : forall sq, ofZ_order (NumQ sq).
+Proof. exact ofZ_order_Q. Qed.
+Print Assumptions C09_int_to_float_order_holds_in_exact_arithmetic.
+
+(* C09_accumulators_are_textbook_sums, for the generated constructor and register:
+   a Tally made by the generated __init__ (whatever the fresh object held) and
+   driven through the generated register / initialize *)
+Theorem C09_generated_accumulators_are_textbook_sums :
+  forall (sq : Q -> Q) (ops : list (top (NumQ sq))) (fresh : tstate (NumQ sq)),
+    let NQ := NumQ sq in
+    let xs := effective sq [] ops in
+    let s := gen_trun NQ (state_of (gen_Tally___init__ NQ fresh NameStr)) ops in
+    gen_Tally_n NQ s = Z.of_nat (length xs) /\
+    gen_Tally_sum NQ s == sum1 xs /\
+    tm1 s == mean xs /\
+    tm2 s == central 2 xs /\ tm3 s == central 3 xs /\ tm4 s == central 4 xs /\
+    match gen_Tally_min NQ s with XNaN => xs = [] | XFin m => is_min m xs | _ => False end /\
+    match gen_Tally_max NQ s with XNaN => xs = [] | XFin m => is_max m xs | _ => False end.
+Proof.
+  intros sq ops fresh. cbv zeta. rewrite gen_trun_eq.
+  exact (C09_accumulators_are_textbook_sums sq ops).
+Qed.
+Print Assumptions C09_generated_accumulators_are_textbook_sums.
+
+(* C09_getters_total, for the generated getters *)
+Theorem C09_generated_getters_total :
+  forall sq, sqrt_contract sq -> forall icdf, icdf_contract icdf -> icdf_no_nan (NumQ sq) icdf ->
+  forall (ops : list (top (NumQ sq))) (fresh : tstate (NumQ sq)),
+    let NQ := NumQ sq in
+    let s := gen_trun NQ (state_of (gen_Tally___init__ NQ fresh NameStr)) ops in
+    no_raise (gen_Tally_mean NQ s) /\
+    (forall b, no_raise (gen_Tally_variance NQ s b)) /\
+    (forall b, no_raise (gen_Tally_stdev NQ s b)) /\
+    (forall b, no_raise (gen_Tally_skewness NQ s b)) /\
+    (forall b, no_raise (gen_Tally_kurtosis NQ s b)) /\
+    (forall b, no_raise (gen_Tally_excess_kurtosis NQ s b)) /\
+    (forall a : Q, 0 <= a -> a <= 1 -> no_raise (gen_Tally_confidence_interval NQ icdf s (@ANum NQ a))).
+Proof.
+  intros sq S icdf I NN ops fresh. cbv zeta. rewrite gen_trun_eq.
+  destruct (C09_getters_total sq S icdf I ops) as [A [B [C [D [E [G K]]]]]].
+  pose proof (ofZ_order_Q sq) as O.
+  repeat split; intros;
+    rewrite ?gen_Tally_mean_eq, ?gen_Tally_variance_eq, ?gen_Tally_stdev_eq, ?gen_Tally_kurtosis_eq,
+            ?(gen_Tally_skewness_eq (NumQ sq) O), ?(gen_Tally_excess_kurtosis_eq (NumQ sq) O),
+            ?(gen_Tally_confidence_interval_eq (NumQ sq) icdf NN);
+    [exact A | exact (B b) | exact (C b) | exact (D b) | exact (E b) | exact (G b) | exact (K a H H0)].
+Qed.
+Print Assumptions C09_generated_getters_total.
+
+Example C09_generated_hypotheses_satisfiable : icdf_contract icdf_const /\ icdf_no_nan (NumQ sq_id) icdf_const.
+Proof. split; [exact icdf_const_total | intros p; discriminate]. Qed.
